@@ -265,9 +265,16 @@ def stub_svd(world):
         axes = kwargs.get('axes', args[1] if len(args) > 1 else (0, 1))
         world.require('svd-of-a-matrix-shaped-block', And(a.role in ('block', 'two'), a.ndim == 2, tuple(axes) == (0, 1), kwargs.get('sU', 1) == 1))
         u, s, v = world.atom('u'), world.atom('s'), world.atom('v')
-        world.rules[(u, s, v)] = a.word
-        # (the norm of S equals the norm of the block: U, V isometric -- LAPACK's contract, assumed)
-        world.norms[(s,)] = world.unit_norm(a.word)
+        if kwargs.get('policy', 'fullrank') == 'fullrank':
+            world.rules[(u, s, v)] = a.word
+            # (the norm of S equals the norm of the block: U, V isometric -- LAPACK's contract, assumed)
+            world.norms[(s,)] = world.unit_norm(a.word)
+        else:
+            # svd's contract promises a = U S V only for policy='fullrank'; the lowrank / randomized / krylov policies return the
+            # leading part of the spectrum (D_block values per block): no rewrite rule, and the norm of S is anything up to |a|
+            lossy = world.V.real(f"lossy_svd_norm{len(world.norms)}")
+            world.V.assume(And(lossy >= 0, lossy <= world.unit_norm(a.word)))
+            world.norms[(s,)] = lossy
         S = GT(world, a.scale, (s,), 'diag')
         return GT(world, 1.0, (u,), 'block', iso='L'), S, GT(world, 1.0, (v,), 'block', iso='R')
     return svd
